@@ -186,8 +186,8 @@ func vh_C16_relative() {
 	vAssert("C16.relative", len(vhReadDirArg) == 1 && vhReadDirArg[0] == wantDir)
 }
 
-var vhRegistry = map[string]func(){"vh_C16_resolve": vh_C16_resolve, "vh_C16_relative": vh_C16_relative, "vh_import_body": vh_import_body, "vh_import_cycle": vh_import_cycle}
+var vhRegistry = map[string]func(){"vh_C16_resolve": vh_C16_resolve, "vh_C16_relative": vh_C16_relative, "vh_import_body": vh_import_body, "vh_import_cycle": vh_import_cycle, "vh_import_subroot": vh_import_subroot}
 
-var vhIntVars = map[string]*int{"vhRootSegs": &vhRootSegs, "vhImpSegs": &vhImpSegs, "vhRelUp": &vhRelUp, "vhRelFrom": &vhRelFrom}
+var vhIntVars = map[string]*int{"vhRootSegs": &vhRootSegs, "vhImpSegs": &vhImpSegs, "vhRelUp": &vhRelUp, "vhRelFrom": &vhRelFrom, "vhSubShape": &vhSubShape}
 
 var vhScenarios = vhImportScenarios
